@@ -32,6 +32,9 @@ import (
 func ParseQuery(q string) (pq *proto.Query, err error) {
 	p := newParser(q)
 
+	// make sure the lexer goroutine terminates, however parsing ends.
+	defer p.lexer.stop()
+
 	defer p.recover(&err)
 
 	pq, err = p.parse()
@@ -298,6 +301,7 @@ type lexer struct {
 	width   pos
 	lastPos pos
 	items   chan item
+	done    chan struct{}
 }
 
 const eof = -1
@@ -344,14 +348,39 @@ func lex(input string) *lexer {
 	l := &lexer{
 		input: input,
 		items: make(chan item),
+		done:  make(chan struct{}),
 	}
 	go l.run()
 	return l
 }
 
 func (l *lexer) run() {
+	// closing the channel makes a parser that asks for more than the lexer
+	// produced see an error item instead of blocking forever.
+	defer close(l.items)
+
 	for l.state = lexText; l.state != nil; {
+		select {
+		case <-l.done:
+			return
+		default:
+		}
+
 		l.state = l.state(l)
+	}
+}
+
+// stop tells the lexer goroutine that nobody is going to read further items.
+// It must be called exactly once.
+func (l *lexer) stop() {
+	close(l.done)
+}
+
+// send delivers an item to the parser unless the parser is already gone.
+func (l *lexer) send(i item) {
+	select {
+	case l.items <- i:
+	case <-l.done:
 	}
 }
 
@@ -475,7 +504,7 @@ func (l *lexer) backup() {
 }
 
 func (l *lexer) emit(t itemType) {
-	l.items <- item{t, l.start, l.input[l.start:l.pos]}
+	l.send(item{t, l.start, l.input[l.start:l.pos]})
 	l.start = l.pos
 }
 
@@ -490,7 +519,7 @@ func (l *lexer) ignore() {
 }
 
 func (l *lexer) errorf(format string, args ...interface{}) stateFn {
-	l.items <- item{itemError, l.start, fmt.Sprintf(format, args...)}
+	l.send(item{itemError, l.start, fmt.Sprintf(format, args...)})
 	return nil
 }
 
